@@ -241,3 +241,15 @@ pub fn u_corpus(name: &str, seed: u64, n_sets: usize, sigma: &[&str], strings: (
 pub fn verif_seed() -> u64 {
     std::env::var("VERIF_SEED").ok().and_then(|s| s.parse().ok()).unwrap_or(0)
 }
+
+/// The same multi-token unit repeated n and n+1 (and n+2) times in different test cases, optionally after a prefix:
+/// the trie merges their counts into a range and has to keep the unit's inner structure consistent with the thresholds.
+pub fn u_unit_counts() -> Universe {
+    let mut w = vec![];
+    for unit in ["aab", "abb", "aabb", "11a"] {
+        for n in 1..=4 {
+            w.push(unit.repeat(n));
+        }
+    }
+    Universe::from_words("U_uc{aab,abb,aabb,11a}^{1..4} subsets of size <=3", w, 3)
+}
